@@ -231,7 +231,7 @@ def find_cluster_centers(assignments, distances):
             "(%s)." % (len(distances), len(assignments)))
 
     unique_centers = np.unique(assignments)
-    center_inds = np.zeros_like(unique_centers)
+    center_inds = np.zeros(len(unique_centers), dtype=int)
 
     for i, c in enumerate(unique_centers):
         assigned_frames = np.where(assignments == c)[0]
@@ -556,7 +556,7 @@ def compute_batches(lengths, batch_size):
     batch_sizes = [[]]
     batch_indices = [[]]
     for i, l in enumerate(lengths):
-        if sum(batch_sizes[-1]) + l < batch_size:
+        if not batch_sizes[-1] or sum(batch_sizes[-1]) + l < batch_size:
             batch_sizes[-1].append(l)
             batch_indices[-1].append(i)
         else:
